@@ -230,8 +230,8 @@ def _chunk(sub, cases):
 
 def run(ctx):
     env.init()
-    consts = ({"NEsc": 5, "NFid": 4, "NRef": 4, "NPath": 1, "Full": "FALSE"} if ctx.quick else
-              {"NEsc": 5, "NFid": 5, "NRef": 5, "NPath": 2, "Full": "TRUE"})
+    consts = ({"NEsc": 5, "NFid": 3, "NRef": 3, "NPath": 1, "Full": "FALSE"} if ctx.quick else
+              {"NEsc": 5, "NFid": 5, "NRef": 4, "NPath": 2, "Full": "TRUE"})
     cases = table.generate(ctx, "GitIdsGen", consts, invariants=("LawsHoldOnSpec", "CodedDeviatesExactly"),
                            witnesses=("WitnessUrlRef",))
     if not cases:
@@ -267,7 +267,7 @@ def run(ctx):
     for kind in ("esc", "fid", "ref", "url", "parent"):
         ctx.sample(next(r for r in reversed(rows) if r["c"]["kind"] == kind and _nontrivial(r["c"])))
     ndrift = 0
-    for row, failed, drift in table.judge(ctx, "GitIdsTrace", rows):
+    for row, failed, drift in table.judge(ctx, "GitIdsTrace", rows, chunk=40000):
         c, o = row["c"], row["impl"]
         for law in failed:
             ctx.violation("%s:%s:%s" % (law, SITE[law], input_class(c, law)),
